@@ -6,6 +6,7 @@
 
 INPKG = {
     "pkg/cache": {"dir": "cache", "clock_subst": ["cache.go"]},
+    "cmd/glyph": {"dir": "cmdglyph"},
 }
 
 HOOK_COMMITS = []   # no guarded source change is committed in /repo; overlays only
@@ -29,6 +30,23 @@ CHECKS = {
         ],
         "units": [
             {"name": "c01-lang", "bin": "c01", "build": "harness:c01", "run": "^TestC01Lang$", "quick": 60000, "thorough": 3000000},
+        ],
+    },
+    "C02": {
+        "level": "exploration",
+        "manifest": {
+            "technique": "differential property-based testing (rapid): the same generated program and requests served through the real request path (parseSource -> setupRoutes -> createHandler) in compiled mode and with --interpret; status and JSON body must agree",
+            "level_text": "Generated modules (arithmetic, comparisons, strings, the builtins both engines implement, if/while/for/switch/match with literal and variable patterns, guards, status returns, typed query parameters, path parameters, JSON bodies, 3% ill-typed operands) are started in both execution modes inside cmd/glyph and hit with the same generated HTTP requests; any difference in status or normalised JSON body is a violation. Classes of programs for which the pinned tree is known to diverge (known_findings.json) are switched off in the generator and counted, and each is re-checked through its witness.",
+            "level_note": "Differential only: if both engines are wrong in the same way the check is silent (C01 covers the interpreter against a reference). Modules that compiled mode refuses at start-up (semantic errors) are outside 'programs the runtime accepts' and are counted as discarded. Five divergence classes are recorded as open findings and excluded from generation.",
+        },
+        "rule": ("rapid-generated modules (1-2 routes, expression depth <=4, nesting <=3) with 1-3 HTTP requests per route, served in compiled mode and in interpreter mode; "
+                 "non-trivial = the module really ran as compiled bytecode (no fallback) and contains a branch, loop or match; distinct = hash of (source, requests)"),
+        "assumptions": [
+            "both handlers are built by the CLI's own setupRoutes/createHandler; requests are delivered with httptest (no socket)",
+            "JSON bodies are compared after decoding (key order and 5 vs 5.0 are not observable differences)",
+        ],
+        "units": [
+            {"name": "c02-diff", "bin": "cmdglyph", "build": "inpkg:cmd/glyph", "run": "^TestC02Diff$", "quick": 30000, "thorough": 1500000},
         ],
     },
     "C20": {
